@@ -461,6 +461,67 @@ func (g *gen) gluedStreamsSession(w *world, l *link, a, b *party, version, hdr i
 }
 
 // "k,n,payload," -> "payload,"
+// C14 / C15: a conversation committed to OTRv3 and bound to its peer is collecting a fragmented data message; a piece
+// in the OTRv2 format (no instance tags: `?OTR,k,n,piece,`) with the right numbers arrives from somebody else. A v3
+// conversation takes pieces only in the v3 format (the tags are what tells the peer's stream from a stranger's): the
+// tagless piece must cause nothing, and the peer's genuine last piece must then complete the message, exactly once.
+func (g *gen) taglessPieceInV3Stream(w *world, k int) {
+	w.parties = map[string]*party{}
+	w.dead = false
+	a := w.newParty(partyCfg{policies: 4 | (k%2)*2, keyIdx: 0, errh: true})
+	b := w.newParty(partyCfg{policies: 4 | (k%2)*2, keyIdx: 1, errh: k%4 < 2})
+	l := &link{w: w, a: a, b: b}
+	l.enqueue(a, []otr3.ValidMessage{[]byte("?OTRv3?")})
+	l.settle(60)
+	if !a.c.IsEncrypted() || !b.c.IsEncrypted() || w.dead {
+		return
+	}
+	size := 100 + g.r.Intn(150)
+	a.c.SetFragmentSize(uint16(size))
+	w.g.out.emit(fmt.Sprintf("setfrag %s %d", a.id, size), "ok")
+	text := append([]byte(fmt.Sprintf("<tagless-%d>", g.r.Intn(1000000))), bytes.Repeat([]byte("x"), 300+g.r.Intn(300))...)
+	pieces, err := w.send(a, text)
+	n := len(pieces)
+	if err != nil || n < 2 || w.dead {
+		return
+	}
+	g.dist["frag:tagless-piece-in-v3-stream"]++
+	pos := n - 1 // the forged piece stands in for the last one …
+	if k%3 == 1 {
+		pos = 1 + g.r.Intn(n-1) // … or for any later one
+	}
+	for i := 0; i < pos; i++ {
+		plain, ts, err, panicked := w.recv(b, pieces[i])
+		if panicked || !quietDelivery(plain, ts, err) {
+			return
+		}
+	}
+	body := pieces[pos][bytes.IndexByte(pieces[pos], ',')+1:]
+	forged := []byte(fmt.Sprintf("?OTR,%05d,%05d,%s", pos+1, n, fragPayload(body)))
+	before := len(b.received)
+	plain, ts, err, panicked := w.recv(b, forged)
+	if panicked {
+		return
+	}
+	olog.ok("C14")
+	if plain != nil || len(b.received) != before {
+		olog.viol("C14", "tagless-piece-completes-v3-stream", fmt.Sprintf("OTRv3 session, fragment size %d: after the genuine pieces 1..%d of %d, the piece %.40q… in the OTRv2 format (no instance tags) made the conversation process a message: plaintext %.40q, %d messages to send, error %v", size, pos, n, forged, plain, len(ts), err))
+		return
+	}
+	for i := pos; i < n; i++ {
+		w.recv(b, pieces[i])
+	}
+	got := 0
+	for _, p := range b.received[before:] {
+		if bytes.Equal(p, text) {
+			got++
+		}
+	}
+	if got != 1 {
+		olog.viol("C14", "stream-lost-to-tagless-piece", fmt.Sprintf("OTRv3 session, fragment size %d: a piece in the OTRv2 format (no instance tags) arrived after the genuine pieces 1..%d of %d; the genuine remaining pieces then delivered the text %d times (expected once)", size, pos, n, got))
+	}
+}
+
 func fragPayload(body []byte) []byte {
 	for i := 0; i < 2; i++ {
 		body = body[bytes.IndexByte(body, ',')+1:]
@@ -821,6 +882,9 @@ func init() {
 			for pattern := 0; pattern < 3; pattern++ {
 				g.twoInstancesBeforeBinding(w, kind, pattern)
 			}
+		}
+		for k := 0; k < 6 && !w.dead; k++ {
+			g.taglessPieceInV3Stream(w, k)
 		}
 		extra["panics"] = panicCount
 		olog.export(extra)
